@@ -70,7 +70,9 @@ Next == /\ doc = <<>>
                  d1 == AddElemNs(b.d, b.p, nm, nsu, <<>>, at)
                  d2 == AddData(d1, Len(d1.parent), "t", <<120, 32, 1488>>)      \* a text child: x, space, a Hebrew letter
                  me == Len(d1.parent)
-             IN \/ doc' = AddElemNs(d2, b.p, <<105,110,112,117,116>>, nsu, <<>>, <<>>)   \* a sibling input ...
-                \/ doc' = AddElemNs(d2, me, <<105,110,112,117,116>>, nsu, <<>>, <<>>)    \* ... or an input inside the element
+                 radio == << At(<<116,121,112,101>>, [v |-> <<114,97,100,105,111>>, list |-> FALSE, odd |-> ""]),
+                             At(<<110,97,109,101>>, [v |-> <<103>>, list |-> FALSE, odd |-> ""]) >>     \* type=radio name=g, unchecked
+             IN \/ doc' = AddElemNs(d2, b.p, <<105,110,112,117,116>>, nsu, <<>>, radio)   \* a sibling radio button ...
+                \/ doc' = AddElemNs(d2, me, <<105,110,112,117,116>>, nsu, <<>>, radio)    \* ... or one inside the element
 Emit == doc = <<>> \/ PrintT(ToJson([doc |-> doc]))
 =============================================================================
